@@ -527,6 +527,8 @@ def range_classes(lines, kern_export_only=False):
         ks = {c['k'] for c in e['cells']}
         if len({frozenset(p['sigs']) for p in paths}) > 1:
             cl.add('unequal_sig_kinds')
+        if any(p['depth'] >= 2 for p in paths):
+            cl.add('nested_split')          # a sub-spine was split again: which split a later join closes is not what the importer records
         core_or_bar = ks & {'note', 'chord', 'null', 'nulli', 'bar', 'err'}
         if seen_measure and ks & {'clef', 'keysig', 'timesig', 'meter'}:
             cl.add('midscore_sig')
